@@ -87,8 +87,12 @@ def _output_order(ck, R):
           "the pointer can be published before the object is completely written and closed: a crash leaves a pointer to partial data", fo.where())
     # pointer designates the object just written
     for p in pub:
-        okv = [A.norm(a) for a in p.args] == ["versioned_key"]
-        ck.ob(R, fo.key(p, "pointer-target"), okv, "the pointer designates the version just written" if okv else
+        # the same value that named the path the bytes were written to
+        wp = [c for c in fo.calls("_get_path_versioned")]
+        okv = len(p.args) == 1 and isinstance(p.args[0], ast.Name) and "call:uuid4" in fo.deps(p.args[0]) and \
+            any(len(c.args) == 1 and isinstance(c.args[0], ast.Name) and c.args[0].id == p.args[0].id
+                and all(fo.df.same_defs(p.args[0].id, a, b) for a in fo.nodes(c) for b in fo.nodes(p)) for c in wp)
+        ck.ob(R, fo.key(None, "pointer-target"), okv, "the pointer designates the version just written" if okv else
               "the published pointer does not designate the version just written", fo.where(p))
     wl = FA(ck, FSDS + "._write_non_versioned_link")
     wr = [c for c in wl.calls("write")]
